@@ -350,8 +350,19 @@ def regf(exclude=()):
 
 
 def tasks():
-    return [ContractTask(c, regf) for c in CONTRACTS if PROP in c.props] + \
+    out = [ContractTask(c, regf) for c in CONTRACTS if PROP in c.props] + \
         [FuncTask("list-op-facts", dilq.list_facts_task, False, "model-validation")]
+    # between L2 and Manager.got_record: records that arrive while the link is still being selected are parked and handed
+    # over in arrival order (C11's contracts on DilatedConnectionProtocol); between Inbound and the application: what a
+    # subchannel does with OPEN/DATA/CLOSE that arrived before its protocol was attached (C13's contracts) - both are part
+    # of "exactly once, in the order issued"
+    from .common import shared_tasks
+    out += shared_tasks("c10", "c11", ("DilatedConnectionProtocol.process_inbound_queue", "DilatedConnectionProtocol.queue_inbound_record",
+                                       "DilatedConnectionProtocol.deliver_record", "DilatedConnectionProtocol.select",
+                                       "DilatedConnectionProtocol.dataReceived"))
+    out += shared_tasks("c10", "c13", ("SubChannel._set_protocol", "SubChannel._deliver_queued_data", "SubchannelDemultiplex._connect",
+                                       "SubChannel.remote_data", "SubChannel.remote_close"))
+    return out
 
 
 TRUSTED = list(dilq.TRUSTED_COMMON) + [
